@@ -749,6 +749,7 @@ for _p in CONC_KINDS:
 # engines that live in their own module tools/engine_<name>.py (loaded lazily: they import this module)
 ENGINE_MODULES = {
     "C12": ["engine_timeout"],
+    "C15": ["engine_asyncio:engine_c15"],
     "C16": ["engine_asyncio:engine_c16"],
     "C17": ["engine_asyncio"],
     "C18": ["engine_transient"],
